@@ -360,6 +360,7 @@ def dump(b):
         'rset.metamodel_registry': sorted(map(str, b.rset.metamodel_registry.maps[0])),
         'global_registry': sorted(map(str, global_registry)),
     }
+    out['metamodel'] = metamodel_side(b)
     for o in b.universe:
         feats = []
         for f in sorted(o.eClass.eAllStructuralFeatures(), key=lambda f: f.name):
@@ -385,6 +386,64 @@ def dump(b):
     return out
 
 
+def metamodel_side(b):
+    """What a save may touch on the METAMODEL side: every EPackage reachable from the classes of the model's
+    objects (their supertypes, the types of their features): name, nsURI, nsPrefix, and per class the features
+    with type and opposite."""
+    pkgs, seen = {}, set()
+
+    def visit(c):
+        if c is None or id(c) in seen:
+            return
+        seen.add(id(c))
+        p = getattr(c, 'ePackage', None)
+        if p is not None and id(p) not in pkgs:
+            pkgs[id(p)] = p
+        for st in getattr(c, 'eSuperTypes', ()):
+            visit(st)
+        for f in getattr(c, 'eStructuralFeatures', ()):
+            visit(getattr(f, '_eType', None) if not hasattr(getattr(f, '_eType', None), 'force_resolve') else None)
+    for o in b.universe:
+        visit(o.eClass)
+    out = []
+    for p in pkgs.values():
+        classes = []
+        for c in p.eClassifiers:
+            classes.append((c.name, [(f.name, getattr(getattr(f, '_eType', None), 'name', None),
+                                      getattr(getattr(f, 'eOpposite', None), 'name', None))
+                                     for f in getattr(c, 'eStructuralFeatures', ())]))
+        out.append((str(p.name), str(p.nsURI), repr(p.nsPrefix), sorted(classes)))
+    return sorted(out)
+
+
+def id_book(b):
+    """The id bookkeeping other code reads: the keys of every resource's uuid_dict, and for every object that has
+    an internal id whether its resource resolves that id to the object.  A save may ADD entries (uuid mode gives ids
+    to objects without one); whatever was there before must still be there afterwards."""
+    keys = [set(map(str, getattr(r, 'uuid_dict', {}))) for r in b.resources]
+    resolves = {}
+    for i, o in enumerate(b.universe):
+        r, iid = o.eResource, getattr(o, '_internal_id', None)
+        if r is None or not iid:
+            continue
+        try:
+            resolves[i] = r.resolve(iid) is o
+        except Exception:       # noqa: not found
+            resolves[i] = False
+    return keys, resolves
+
+
+def id_book_lost(before, after):
+    """-> description of an id entry that a save took away, or None."""
+    for ri, (k0, k1) in enumerate(zip(before[0], after[0])):
+        if k0 - k1:
+            return f'uuid_dict of resource {ri} lost {len(k0 - k1)} of its {len(k0)} keys'
+    for i, ok in before[1].items():
+        if ok and not after[1].get(i, False):
+            return f'object {i} is no longer found by resolve(<its id>) in its resource'
+    return None
+
+
 def ids_of(b):
     return [getattr(o, '_internal_id', None) for o in b.universe]
 
@@ -393,6 +452,9 @@ def first_difference(a, b_):
     for k, v in a.get('environment', {}).items():
         if v != b_.get('environment', {}).get(k):
             return f"{k}: {v} -> {b_.get('environment', {}).get(k)}"
+    if a.get('metamodel') != b_.get('metamodel'):
+        x = next(((p, q) for p, q in zip(a['metamodel'], b_['metamodel']) if p != q), None)
+        return f'metamodel: package {x[0][:3]} -> {x[1][:3]}' if x and x[0][:3] != x[1][:3] else 'metamodel: a class or feature changed'
     if a['resources'] != b_['resources']:
         return f"resource contents {a['resources']} -> {b_['resources']}"
     for i, (x, y) in enumerate(zip(a['objects'], b_['objects'])):
@@ -471,6 +533,7 @@ def check_success(out, model, spec, fmt, opts, stats, scratch):
         with open(target, 'wb') as f:
             f.write(b'PREVIOUS')
         d0, i0 = dump(b), ids_of(b)
+        book0 = id_book(b)
         shared = save_options(fmt, opts)          # one options object reused by the three saves
         shared0 = dict(shared) if shared is not None else None
         e1 = do_save(b, fmt, opts, outp, options_obj=shared)
@@ -500,6 +563,9 @@ def check_success(out, model, spec, fmt, opts, stats, scratch):
         stats['ok_saves_checked'] += 1
         if d0 != d2:
             out.fail(sig('purity', fmt), 'observable model state changed by save: ' + first_difference(d0, d2), case)
+        lost = id_book_lost(book0, id_book(b))
+        if lost:
+            out.fail(sig('purity', fmt), 'id bookkeeping changed by save: ' + lost, case)
         for k, (a, c) in enumerate(zip(i0, i2)):
             if a is not None and a != c:
                 out.fail(sig('purity', fmt), f'internal id of object {k} replaced by save: {a!r} -> {c!r}', case)
@@ -560,6 +626,10 @@ def check_fault(out, model, spec, fmt, opts, kind, pos, old, stats, scratch):
     with tempfile.TemporaryDirectory(dir=scratch) as d:
         b = build(spec, d, fmt, opts['use_uuid'], opts.get('indent'))
         npos = len(b.positions)
+        if opts['use_uuid'] and pos % 2 == 0:
+            # ids already assigned and registered when the failing save starts (saved to a side file)
+            do_save(b, fmt, opts, os.path.join(d, 'presave.' + fmt))
+            stats['saves'] += 1
         plant(b, spec, kind, b.positions[pos] if spec['kind'] == 'instance' else pos)
         target = b.path if opts['target'] == 'uri' else os.path.join(d, 'elsewhere.' + fmt)
         # output=: ONE URI object, kept alive and reused for every save of this case (an export target)
@@ -567,10 +637,13 @@ def check_fault(out, model, spec, fmt, opts, kind, pos, old, stats, scratch):
         if old is not None:
             with open(target, 'wb') as f:
                 f.write(old)
-        d0 = dump(b)
+        d0, book0 = dump(b), id_book(b)
         exc = do_save(b, fmt, opts, outp)
         after = read(target)
         d1 = dump(b)
+        lost = id_book_lost(book0, id_book(b))
+        if lost:
+            out.fail(sig('purity', fmt, kind), ('a failing' if exc else 'a') + ' save changed the id bookkeeping: ' + lost, case)
         stats['saves'] += 1
         stats['faults'][kind] = stats['faults'].get(kind, 0) + 1
         stats['fault_outcomes'][f'{fmt}/{kind}/' + ('raised' if exc else 'saved')] = \
